@@ -248,7 +248,7 @@ theorem metaProc_history (r : Realm) (req : Nat) (details : Dict) (a : WVal) (re
     (id : Nat) (q : HistQuery) (h : Hist) (ha : a.asID = some id) (hq : histQuery? kw = some q)
     (hsub : (r.broker.findId id).isSome = true) (hh : r.broker.hist.find? (fun h => h.sub == id) = some h) :
     metaProc r MetaProcEventHistory req details (a :: rest) kw =
-      (mYield req ((histAnswer q h.entries).map histEntryVal)
+      (mYield req ((histAnswer (subQuery r id q) h.entries).map histEntryVal)
         [("is_limit_reached", .bool (h.entries.length ≥ h.limit))], r) := by
   unfold metaProc
   have e1 : (MetaProcEventHistory == MetaProcSessionCount) = false := by decide
